@@ -458,3 +458,23 @@ CORPUS += [
     V("C16", "eq-reinforce-rearranged", RFF, "reinforce_loss = -(advantage * log_likelihood).mean()", "reinforce_loss = -(log_likelihood * advantage).mean()", None),
     V("C16", "eq-critic-rename", BLF, "        v = self.critic(x).squeeze(-1)\n        # detach v since actor should not backprop through baseline, only for loss\n        return v.detach(), F.mse_loss(v, c.detach())", "        val = self.critic(x).squeeze(-1)\n        return val.detach(), F.mse_loss(val, c.detach())", None),
 ]
+
+UTF = "rl4co/models/rl/common/utils.py"
+CORPUS += [
+    # ---------------------------------------------------------------- C20
+    V("C20", "welford-delta2-before-mean-update", UTF, "        delta = batch - self.mean\n        self.mean += (delta / self.count).sum()\n        # newvalues - newMeant\n        delta2 = batch - self.mean", "        delta = batch - self.mean\n        delta2 = batch - self.mean\n        self.mean += (delta / self.count).sum()", "C20.a"),
+    V("C20", "welford-count-after-mean", UTF, "        self.count += len(batch)\n\n        # newvalues - oldMean\n        delta = batch - self.mean\n        self.mean += (delta / self.count).sum()", "        # newvalues - oldMean\n        delta = batch - self.mean\n        self.mean += (delta / self.count).sum()\n        self.count += len(batch)", "C20.a"),
+    V("C20", "welford-m2-delta-squared", UTF, "self.M2 += (delta * delta2).sum()", "self.M2 += (delta * delta).sum()", "C20.a"),
+    V("C20", "welford-mean-of-means", UTF, "self.mean += (delta / self.count).sum()", "self.mean += (delta / self.count).mean()", "C20.a"),
+    V("C20", "scaler-population-std", UTF, "std = (self.M2 / (self.count - 1)).float().sqrt()", "std = (self.M2 / self.count).float().sqrt()", "C20.b"),
+    V("C20", "scaler-update-twice", UTF, "        self.update(scores)\n", "        self.update(scores)\n        self.update(scores)\n", "C20.b"),
+    V("C20", "scaler-norm-no-centering", UTF, "scores = (scores - self.mean.to(**tensor_to_kwargs)) / score_scaling_factor", "scores = scores / score_scaling_factor", "C20.b"),
+    V("C20", "scaler-update-with-grad", UTF, "    @torch.no_grad()\n    def update", "    def update", "C20.a"),
+    V("C20", "ema-beta-swapped", BLF, "v = self.beta * self.v + (1.0 - self.beta) * reward.mean()", "v = (1.0 - self.beta) * self.v + self.beta * reward.mean()", "C20.c"),
+    V("C20", "ema-returns-fresh-v", BLF, "        return self.v, 0  # No loss", "        return v, 0  # No loss", "C20.c"),
+    V("C20", "warmup-alpha-swapped", BLF, "            self.alpha * v_b + (1 - self.alpha) * v_wb,", "            (1 - self.alpha) * v_b + self.alpha * v_wb,", "C20.d"),
+    V("C20", "warmup-loss-other-weight", BLF, "            self.alpha * l_b + (1 - self.alpha) * l_wb,", "            l_b + (1 - self.alpha) * l_wb,", "C20.d"),
+    V("C20", "warmup-alpha-no-plus-one", BLF, 'self.alpha = (kw["epoch"] + 1) / float(self.n_epochs)', 'self.alpha = kw["epoch"] / float(self.n_epochs)', "C20.d"),
+    V("C20", "eq-ema-incremental-form", BLF, "v = self.beta * self.v + (1.0 - self.beta) * reward.mean()", "v = self.v + (1.0 - self.beta) * (reward.mean() - self.v)", None),
+    V("C20", "eq-welford-rename", UTF, "delta2", "d_new", None, count=99),
+]
